@@ -5,6 +5,60 @@ ROOT = os.path.dirname(os.path.dirname(os.path.abspath(__file__)))
 ids = [json.loads(l)['id'] for l in open(os.path.join(ROOT, 'properties.jsonl'))]
 
 CLAIMED = {
+ 'C05': dict(
+   technique='runtime monitoring: online reference-model monitor over call records of seeded random histories (generic driver, hostile peer, small alphabets), every call under catch_unwind in the overflow-checks build (+ second build with assertions/overflow checks off)',
+   level='exploration',
+   text='700 k (quick) / 25 M (thorough) histories of contract-respecting local calls interleaved with arbitrary peer traffic (valid packets of every kind with boundary values, mutated frames, garbage, tiny Maximum Packet Size, Receive Maximum 1, Topic Alias Maximum 0) over all roles/versions/id widths/options; rules: no panic in any call, recv always progresses, every complete frame is delivered, answered as a duplicate or reported, a fresh handshake is accepted after every close (the driver reconnects after every close). Both build profiles.',
+   note='Trusted: the reference model of DESIGN Appendix F (written from the property statements, updated only from calls, returned events and public probes) and the application contract of DESIGN §3.3. The hook digest is only used to read the in-use id set faster; the same clause is re-checked black-box by register()/release() probing on a sample of calls.',
+   design='DESIGN.md §4 + Appendix F'),
+ 'C06': dict(
+   technique='runtime monitoring: online reference-model monitor over call records of seeded random histories (generic driver, hostile peer, small alphabets), every call under catch_unwind in the overflow-checks build',
+   level='exploration',
+   text='Store shadow with allowed transitions: an accepted QoS>0 PUBLISH is sent or stored (S1), stored under a persistent session (S2), the exported store changes only for a cause (matching ack, erase, oversize drop, new session) and otherwise equals the shadow after EVERY call (S3), stored packets hold their id (S9), only the matching acknowledgement is accepted (S6), retransmission after CONNACK equals the store in order with DUP, full topic, no alias and before any other packet (S4), session-not-present empties it (S5).',
+   note='Trusted: the reference model of DESIGN Appendix F (written from the property statements, updated only from calls, returned events and public probes) and the application contract of DESIGN §3.3. The hook digest is only used to read the in-use id set faster; the same clause is re-checked black-box by register()/release() probing on a sample of calls.',
+   design='DESIGN.md §4 + Appendix F'),
+ 'C07': dict(
+   technique='runtime monitoring: online reference-model monitor over call records of seeded random histories (generic driver, hostile peer, small alphabets), every call under catch_unwind in the overflow-checks build',
+   level='exploration',
+   text='Per-id handled bit: a QoS 2 PUBLISH is notified at most once between releases (Q1), get_qos2_publish_handled() equals the model set after every call (Q2), a validated first PUBLISH is never swallowed (Q3), duplicates are answered with PUBREC (Q4); histories include reconnects (clean/resumed), error PUBREC, manual and automatic responses, both versions and receiving roles.',
+   note='Trusted: the reference model of DESIGN Appendix F (written from the property statements, updated only from calls, returned events and public probes) and the application contract of DESIGN §3.3. The hook digest is only used to read the in-use id set faster; the same clause is re-checked black-box by register()/release() probing on a sample of calls.',
+   design='DESIGN.md §4 + Appendix F'),
+ 'C08': dict(
+   technique='runtime monitoring: online reference-model monitor over call records of seeded random histories (generic driver, hostile peer, small alphabets), every call under catch_unwind in the overflow-checks build; black-box id probing',
+   level='exploration',
+   text='In-use set model + ownership model: acquire returns a free id (P1), register succeeds iff free and in range (P2), a release is announced only for an in-use id and never twice (P3), the real in-use set (hook, cross-checked by register/release probing) equals the model after EVERY call (P4: no silent free, no leak), completion/refusal/close release exactly the ids the statement names (P5a-c), release_packet_id is total incl. 0 and free ids (P7).',
+   note='Trusted: the reference model of DESIGN Appendix F (written from the property statements, updated only from calls, returned events and public probes) and the application contract of DESIGN §3.3. The hook digest is only used to read the in-use id set faster; the same clause is re-checked black-box by register()/release() probing on a sample of calls.',
+   design='DESIGN.md §4 + Appendix F'),
+ 'C12': dict(
+   technique='runtime monitoring: online reference-model monitor over call records of seeded random histories (generic driver, hostile peer, small alphabets), every call under catch_unwind in the overflow-checks build (+ second build with overflow checks off)',
+   level='exploration',
+   text='Outstanding-set model keyed by id: vacancy == max(0, M - |outstanding|) after every call on an established v5 connection (F1), a QoS>0 PUBLISH is accepted iff below the limit (F2), inbound excess is not delivered (F3); M in {1,2,3,65535}, resumes with stored packets, erasures, refusals, error acks.',
+   note='Trusted: the reference model of DESIGN Appendix F (written from the property statements, updated only from calls, returned events and public probes) and the application contract of DESIGN §3.3. The hook digest is only used to read the in-use id set faster; the same clause is re-checked black-box by register()/release() probing on a sample of calls.',
+   design='DESIGN.md §4 + Appendix F'),
+ 'C13': dict(
+   technique='runtime monitoring: online reference-model monitor over call records of seeded random histories (generic driver, hostile peer, small alphabets), every call under catch_unwind in the overflow-checks build',
+   level='exploration',
+   text="Independent model of the RECEIVER's alias table built from the outgoing packet stream: an empty topic is only sent with an alias in range that an earlier PUBLISH actually sent on this connection bound to the intended topic (AL1-AL3), stored/retransmitted copies carry full topic and no alias (AL4), inbound aliased publishes resolve to what the peer bound or are rejected (AL5, AL6); manual, auto-map, auto-replace, refusals in between, reconnects, server publishing before CONNACK.",
+   note='Trusted: the reference model of DESIGN Appendix F (written from the property statements, updated only from calls, returned events and public probes) and the application contract of DESIGN §3.3. The hook digest is only used to read the in-use id set faster; the same clause is re-checked black-box by register()/release() probing on a sample of calls.',
+   design='DESIGN.md §4 + Appendix F'),
+ 'C14': dict(
+   technique='runtime monitoring: online reference-model monitor over call records of seeded random histories (generic driver, hostile peer, small alphabets), every call under catch_unwind in the overflow-checks build',
+   level='exploration',
+   text="size() of every packet in every RequestSendPacket (direct, automatic responses, retransmissions, alias-rewritten) against the limit captured from the peer's CONNECT/CONNACK (Z1), oversize stored packets dropped and released on resume (Z2), oversize inbound not delivered and answered with DISCONNECT 0x95 (Z3); limits drawn from 1..40 so that they straddle actual packet sizes constantly.",
+   note='Trusted: the reference model of DESIGN Appendix F (written from the property statements, updated only from calls, returned events and public probes) and the application contract of DESIGN §3.3. The hook digest is only used to read the in-use id set faster; the same clause is re-checked black-box by register()/release() probing on a sample of calls.',
+   design='DESIGN.md §4 + Appendix F'),
+ 'C15': dict(
+   technique='runtime monitoring: online reference-model monitor over call records of seeded random histories (generic driver, hostile peer, small alphabets), every call under catch_unwind in the overflow-checks build',
+   level='exploration',
+   text='Armed-set model driven by Reset/Cancel/fire: cancel only when armed (T1), nothing armed after close or DISCONNECT (T2), no local call arms a timer while disconnected (T3), client re-arms PINGREQ with the priority interval after every send incl. retransmission (T4), server re-arms 1.5 x keep-alive on every accepted packet and never for 0 (T5), PINGREQ arms / PINGRESP cancels the response timer (T6), each expiry has its specified effect (T7).',
+   note='Trusted: the reference model of DESIGN Appendix F (written from the property statements, updated only from calls, returned events and public probes) and the application contract of DESIGN §3.3. The hook digest is only used to read the in-use id set faster; the same clause is re-checked black-box by register()/release() probing on a sample of calls.',
+   design='DESIGN.md §4 + Appendix F'),
+ 'C19': dict(
+   technique='runtime monitoring: online reference-model monitor over call records of seeded random histories (generic driver, hostile peer, small alphabets), every call under catch_unwind in the overflow-checks build',
+   level='exploration',
+   text='Every event list of every history (hostile, timer, store and QoS 2 focused drivers): no RequestClose before a RequestSendPacket (K1), every DISCONNECT sent and every failing CONNACK accompanied by a close in the same list (K2), keep-alive timeout expiry on an established connection results in a close (K3).',
+   note='Trusted: the reference model of DESIGN Appendix F (written from the property statements, updated only from calls, returned events and public probes) and the application contract of DESIGN §3.3. The hook digest is only used to read the in-use id set faster; the same clause is re-checked black-box by register()/release() probing on a sample of calls.',
+   design='DESIGN.md §4 + Appendix F'),
  'C02': dict(
    technique='runtime monitoring: round-trip identities evaluated on generated packets built through the public builders (boundary-biased generator, 4 SSO feature builds in thorough), every call under catch_unwind',
    level='exploration',
